@@ -13,6 +13,8 @@ def replay(run, binary, test, cases, name, timeout=1800):
     viol, samples, summary = summary_of(outp)
     if summary is None:
         raise core.Inconclusive("driver %s did not finish" % test)
+    if test == "TestC18Jar":
+        viol = run.confirm(binary, test, {}, viol, name)
     for v in viol:
         run.violation(v)
     for s in samples[:1]:
